@@ -25,9 +25,16 @@ pub fn install_panic_hook() {
         } else {
             "<non-string payload>".into()
         };
+        if let Ok(mut g) = LAST_PANIC_ANY_THREAD.lock() {
+            *g = Some((loc.clone(), msg.clone()));
+        }
         LAST_PANIC.with(|p| *p.borrow_mut() = Some((loc, msg)));
     }));
 }
+
+/// Location and message of the most recent panic on any thread (for reporting a panic of the
+/// harness itself, whose thread-local record dies with the thread).
+pub static LAST_PANIC_ANY_THREAD: std::sync::Mutex<Option<(String, String)>> = std::sync::Mutex::new(None);
 
 /// Why control left the real code other than by returning.
 #[derive(Clone, Debug, PartialEq)]
@@ -326,16 +333,26 @@ pub fn final_state(env: &RunEnvironment) -> FinalState {
     }
 }
 
+thread_local! {
+    static CASE_MINIMAL: std::cell::Cell<bool> = const { std::cell::Cell::new(true) };
+}
+
+/// Output mode for the environments built on this (case) thread from now on. Monitors that compare
+/// machine state rather than debugger text also run with the decorated (non-minimal) output paths.
+pub fn case_minimal(minimal: bool) {
+    CASE_MINIMAL.with(|c| c.set(minimal));
+}
+
 /// Assemble `text` on this (fresh) thread and build the run environment exactly as the CLI does
 /// (`AsmParser::new -> parse -> backpatch -> RunEnvironment::try_from`), optionally attaching the
-/// debugger with a `--command` script. Minimal output mode is switched on.
+/// debugger with a `--command` script. Minimal output mode is on unless `case_minimal(false)`.
 pub fn build_env(
     text: &str,
     stack: bool,
     script: Option<String>,
 ) -> Result<(RunEnvironment, Image), AsmOutcome> {
     init_features(stack);
-    lace::set_minimal(true);
+    lace::set_minimal(CASE_MINIMAL.with(|c| c.get()));
     // The debugger keeps `&'static str` into the source: leak it for the life of the thread.
     let source = StaticSource::new(text.to_string());
     let src = source.src();
